@@ -176,8 +176,8 @@ Theorem C01_roundtrip cfg d e p order :
 Proof.
   intros S R P. unfold roundtrip. rewrite (C01_emission cfg d e p S R).
   apply parse_all.
-  rewrite <- (map_nth_seq (lin (expected p)) (mkPmsg 0 [] None None 0)) at 2.
-  now apply Permutation_map.
+  eapply perm_trans; [apply Permutation_map; exact P|].
+  rewrite map_nth_seq. apply Permutation_refl.
 Qed.
 
 (* in emission order in particular *)
@@ -188,3 +188,68 @@ Corollary C01_roundtrip_emission_order cfg d e p :
     Permutation us (seq 0 (length (expected p))) /\
     Forall2 (parsed_as (expected p)) us done.
 Proof. intros S R. now apply C01_roundtrip. Qed.
+
+(* ====================================================================================== *)
+(* Examples (program [ex_p] of C01Emission.v: six tasks, 29 messages, nesting depth 4,     *)
+(* failing actions, try blocks, the three block styles)                                    *)
+(* ====================================================================================== *)
+Module C01RoundtripExamples.
+Import C01Examples.
+
+Example ex_emission :
+  number_from 0 (trace_of (fst (run_prog ex_cfg (one_dest 0 ex_e) ex_p)) 0) = lin (expected ex_p).
+Proof. vm_compute. reflexivity. Qed.
+
+(* an arrival order: the last 20 messages in reverse, then the first 9 *)
+Definition ex_order : list nat := rev (skipn 9 (seq 0 29)) ++ firstn 9 (seq 0 29).
+
+Example ex_order_perm : Permutation ex_order (seq 0 (length (lin (expected ex_p)))).
+Proof.
+  change (length (lin (expected ex_p))) with 29. unfold ex_order.
+  eapply perm_trans; [apply Permutation_app_comm|].
+  rewrite <- (firstn_skipn 9 (seq 0 29)) at 3.
+  apply Permutation_app_head. apply Permutation_sym, Permutation_rev.
+Qed.
+
+(* the hypotheses of [C01_roundtrip] hold for it ... *)
+Example ex_roundtrip_hyps :
+  simple ex_p = true /\ reg_ok ex_cfg ex_p = true /\
+  Permutation ex_order (seq 0 (length (lin (expected ex_p)))).
+Proof. split; [reflexivity|]. split; [reflexivity|]. exact ex_order_perm. Qed.
+
+(* ... and, by evaluation: no error, nothing incomplete, six completed tasks, completed in the
+   order 5,4,3,2,0,1 (uuid of each root; task 1 spans messages 1..20), each complete, each root the whole expected tree *)
+Definition root_uuid (t : task) : option nat := option_map node_uuid (task_root t).
+
+Example ex_roundtrip :
+  match roundtrip ex_cfg (one_dest 0 ex_e) ex_p 0 ex_order with
+  | POk (done, rest) =>
+      rest = [] /\ map root_uuid done = map Some [5; 4; 3; 2; 0; 1] /\
+      forallb task_complete done = true /\
+      map task_root done =
+        map (fun u => match nth_error (expected ex_p) u with
+                      | Some T => Some (node_of (lin_id (expected ex_p) u) u (fun _ => true) (root_level T) T)
+                      | None => None
+                      end) [5; 4; 3; 2; 0; 1]
+  | PErr _ => False
+  end.
+Proof. vm_compute. repeat split; reflexivity. Qed.
+
+(* emission order and reverse emission order give the same six tasks *)
+Example ex_roundtrip_orders :
+  match roundtrip ex_cfg (one_dest 0 ex_e) ex_p 0 (seq 0 29),
+        roundtrip ex_cfg (one_dest 0 ex_e) ex_p 0 (rev (seq 0 29)) with
+  | POk (done, rest), POk (done', rest') => rest = [] /\ rest' = [] /\ done' = rev done /\ length done = 6
+  | _, _ => False
+  end.
+Proof. vm_compute. repeat split; reflexivity. Qed.
+
+(* outside the fragment the statement is false as stated: a start_task nested in an action is a
+   new task whose messages are emitted in the middle of the enclosing task's *)
+Example nested_task_not_in_emission_order :
+  let p := [SAct 1 WithBlock false (T 11) [] None [] [SAct 2 WithBlock true (T 12) [] None [] []]] in
+  simple p = false /\
+  map pm_uuid (number_from 0 (trace_of (fst (run_prog ex_cfg (one_dest 0 ex_e) p)) 0)) = [0; 1; 1; 0].
+Proof. vm_compute. split; reflexivity. Qed.
+
+End C01RoundtripExamples.
